@@ -538,6 +538,9 @@ package workflow
 //@   property C15
 //@   ensures i != nil && i.template != nil && len(i.Roles) > 0 ==> b
 //@   ensures i == nil || i.template == nil ==> !b
+// ... and one that has none left (empty range, or every generated role disabled) is: "aggregators left empty disappear"
+// must also hold for an aggregator whose only child is such an iterator
+//@   ensures b ==> len(i.Roles) > 0
 
 // C15: a template error while resolving an iterator's range expression makes the load fail (the JSON decoding of the
 // resolved text is outside the contracts)
